@@ -308,7 +308,11 @@ class BasicVisitor(NodeVisitor):
         )
 
     def visit_linenum(self, node, visited_children):
-        return int(node.full_text[node.start : node.end])
+        # Ten significant digits are far above the largest line number that is
+        # accepted, so longer numbers can be cut there (int() refuses very long
+        # digit strings) and are still refused as too large / undefined later.
+        digits = node.full_text[node.start : node.end].lstrip("0") or "0"
+        return int(digits[:10])
 
     def visit_line_or_stmnts(
         self, _, visited_children
